@@ -408,6 +408,14 @@ fn refusals(rep: &mut Report, ctx: &Ctx) {
 
 // ------------------------------------------------------------------------------ geo-traits view
 
+/// Cleared when the probe process (see `run`) died inside the `*_unchecked` accessors: the
+/// in-process workload then leaves them alone instead of dying with them.
+static UNCHECKED_OK: std::sync::atomic::AtomicBool = std::sync::atomic::AtomicBool::new(true);
+
+fn unchecked_ok() -> bool {
+    UNCHECKED_OK.load(std::sync::atomic::Ordering::Relaxed)
+}
+
 fn m_class(m: f64) -> &'static str {
     if m.is_nan() {
         "NaN"
@@ -441,7 +449,7 @@ fn check_coord<C: CoordTrait<T = f64>>(c: &C, fields: [f64; 4], what: &str, poin
             let a = c.nth(i);
             let b = c.nth_or_panic(i);
             // SAFETY: i < dim().size(), which is the contract of nth_unchecked
-            let u = unsafe { c.nth_unchecked(i) };
+            let u = if unchecked_ok() { unsafe { c.nth_unchecked(i) } } else { b };
             (a, b, u)
         });
         let sig = format!("traits/{}/{}/nth({})", point_type, mc, i);
@@ -548,7 +556,9 @@ fn traits_view(case: &str, i: usize, ctx: &Ctx, rep: &mut Report) {
         }
     }
     let mp2 = Multipoint::new(vec![Point::new(y, x), p2]);
-    if MultiPointTrait::num_points(&mp2) == 2 {
+    if !unchecked_ok() {
+        // the probe process died in an unchecked accessor (reported by `run`)
+    } else if MultiPointTrait::num_points(&mp2) == 2 {
         // SAFETY: 1 < num_points()
         let p = unsafe { MultiPointTrait::point_unchecked(&mp2, 1) };
         if let Some(c) = PointTrait::coord(&p) {
@@ -557,7 +567,8 @@ fn traits_view(case: &str, i: usize, ctx: &Ctx, rep: &mut Report) {
     } else {
         rep.violation("traits/Multipoint/num_points", case, J::s("num_points() differs from the number of points"));
     }
-    if MultiPointTrait::num_points(&mpz) == 2 && MultiPointTrait::num_points(&mpm) == 2 {
+    if !unchecked_ok() {
+    } else if MultiPointTrait::num_points(&mpz) == 2 && MultiPointTrait::num_points(&mpm) == 2 {
         // SAFETY: indices below num_points()
         let p = unsafe { MultiPointTrait::point_unchecked(&mpz, 1) };
         if let Some(c) = PointTrait::coord(&p) {
@@ -578,10 +589,12 @@ fn traits_view(case: &str, i: usize, ctx: &Ctx, rep: &mut Report) {
                     let want = if (li, ci) == (0, 0) || (li, ci) == (1, 1) { [y, x, m, z] } else { [x, y, z, m] };
                     check_coord(&c, want, "PolylineZ.line_string(i).coord(j)", "PointZ", case, rep);
                 }
-                // SAFETY: ci < num_coords()
-                let c = unsafe { ls.coord_unchecked(ci) };
-                let want = if (li, ci) == (0, 0) || (li, ci) == (1, 1) { [y, x, m, z] } else { [x, y, z, m] };
-                check_coord(&c, want, "PolylineZ.line_string(i).coord_unchecked(j)", "PointZ", case, rep);
+                if unchecked_ok() {
+                    // SAFETY: ci < num_coords()
+                    let c = unsafe { ls.coord_unchecked(ci) };
+                    let want = if (li, ci) == (0, 0) || (li, ci) == (1, 1) { [y, x, m, z] } else { [x, y, z, m] };
+                    check_coord(&c, want, "PolylineZ.line_string(i).coord_unchecked(j)", "PointZ", case, rep);
+                }
             }
         }
     }
@@ -604,6 +617,37 @@ pub fn run(ctx: &Ctx) -> Report {
     let shape_types = [1, 21, 11, 8, 28, 18, 3, 23, 13, 5, 25, 15, 31];
     // work items: 13 shape types + 7 geo variants + traits, n each
     let lanes = shape_types.len() + 7 + 1;
+    // ---- probe process: the `*_unchecked` accessors are `unsafe fn`s; if one of them is wrong for
+    //      an index inside its contract the process does not unwind, it dies (or worse). So the
+    //      first traits cases run in a child process first; if that child does not come back
+    //      clean, this is reported as a violation here and the in-process workload skips them.
+    if ctx.opt("unchecked_probe").is_some() {
+        let mut rep = Report::default();
+        for i in 0..40 {
+            traits_view(&format!("c20:traits:i{}", i), i, ctx, &mut rep);
+        }
+        return rep;
+    }
+    let mut probe: Option<(String, String)> = None;
+    if !cfg!(miri) && ctx.only.as_ref().map(|o| o.starts_with("c20:traits:")).unwrap_or(true) {
+        let child = std::env::current_exe().ok().and_then(|exe| {
+            std::process::Command::new(exe)
+                .args(["c20", "--tier", "quick", "--seed", &ctx.seed.to_string(), "--out", &format!("{}/probe", ctx.out), "--threads", "1", "--opt", "unchecked_probe=1"])
+                .output()
+                .ok()
+        });
+        match child {
+            Some(o) if o.status.success() => {}
+            Some(o) => {
+                UNCHECKED_OK.store(false, std::sync::atomic::Ordering::Relaxed);
+                let err = String::from_utf8_lossy(&o.stderr);
+                let tail: String = err.lines().rev().take(6).collect::<Vec<_>>().into_iter().rev().collect::<Vec<_>>().join(" | ");
+                probe = Some((format!("{:?}", o.status), tail));
+            }
+            None => {}
+        }
+        let _ = std::fs::remove_dir_all(format!("{}/probe", ctx.out));
+    }
     let mut rep = par(ctx, lanes * n, |idx, rep| {
         let (lane, i) = (idx / n, idx % n);
         if lane < shape_types.len() {
@@ -627,6 +671,20 @@ pub fn run(ctx: &Ctx) -> Report {
             rep.sample(|| J::obj(vec![("lane", J::s(if lane < 13 { "shape->geo(->shape)" } else if lane < 20 { "geo->shape->geo" } else { "geo-traits view" })), ("index", J::UInt(i as u64))]));
         }
     });
+    if let Some((status, tail)) = probe {
+        rep.eval();
+        rep.violation(
+            "traits/unchecked-accessors/process-died",
+            "c20:traits:i0",
+            J::obj(vec![
+                ("what", J::s("a process that only views points through the geo-traits accessors (nth / nth_or_panic / nth_unchecked, point_unchecked, coord_unchecked, every index inside its contract) did not come back: a wrong unsafe accessor does not unwind")),
+                ("exit_status", J::s(status)),
+                ("stderr_tail", J::s(tail)),
+            ]),
+        );
+    } else if !cfg!(miri) {
+        rep.count("probe_process_runs_of_the_unchecked_accessors", 1);
+    }
     refusals(&mut rep, ctx);
     if ctx.only.is_none() {
         for (k, req) in [("shape_to_geo_compared", 13 * n as u64 / 2), ("shape_geo_shape_round_trips", n as u64), ("geo_shape_geo_round_trips", n as u64), ("trait_indices_read", n as u64), ("refusals_observed", 9)] {
